@@ -56,7 +56,8 @@ def required(tier):
           'refused:offset-without-limit', 'cond:bounding_box', 'cond:continent', 'cond:country',
           'cond:airport', 'cond:dates', 'cond:every_nth', 'cond:every_nth+start',
           'cond:limit+offset', 'cond:sample', 'cond:ranges', 'cond:types', 'db:shipped',
-          'db:generated', 'result:non-empty', 'result:empty']
+          'db:generated', 'result:non-empty', 'result:empty', 'cond:zero-bound',
+          'history:interleaved-consumption']
     return {'classes': cl, 'evaluations': 1500}
 
 
@@ -160,7 +161,13 @@ def gen_filter(rng, T: Table):
         if rng.random() < 0.7:
             kw['max_distance'] = b if rng.random() < 0.5 else b + rng.uniform(0, 50)
         conds.add('ranges')
-    if rng.random() < 0.25:
+    if rng.random() < 0.08:
+        # bounds that are zero are bounds too
+        z = rng.choice(['max_seat_capacity', 'max_distance', 'min_seat_capacity', 'min_distance'])
+        kw[z] = 0
+        conds.add('ranges')
+        conds.add('zero-bound')
+    elif rng.random() < 0.25:
         a, b = sorted((rng.choice(rows)['seats'], rng.choice(rows)['seats']))
         if rng.random() < 0.7:
             kw['min_seat_capacity'] = a
@@ -446,6 +453,36 @@ def run_shard(spec, rec):
                                 raise Mismatch('result fields differ from the stored instance',
                                                {'got': got, 'expected': want, **d2})
                     rec.cls(f'exec:{ex}')
+                # ---- interleaved consumption: another query runs while this one is read ----
+                if qkind == 'Query' and sample is None and rng.random() < 0.5:
+                    rec.ev()
+                    gen = db(q)
+                    first = [next(gen, None) for _ in range(rng.randint(0, 3))]
+                    other = rng.choice(['count', 'query', 'frequent'])
+                    if other == 'count':
+                        db(CountQuery())
+                    elif other == 'query':
+                        g2 = db(Query(limit=rng.randint(1, 7)))
+                        next(g2, None)
+                        more = [next(gen, None)]
+                        list(g2)
+                        first += more
+                    else:
+                        list(db(FrequentFlightQuery(limit=3)))
+                    rest = list(gen)
+                    got_ids = [x.id for x in first + rest if x is not None]
+                    sl = expected
+                    if limit is not None:
+                        off = offset or 0
+                        sl = expected[off:off + limit]
+                    got_deps = [T.by_id[i]['dep'] for i in got_ids if i in T.by_id]
+                    if len(got_ids) != len(sl) or got_deps != [r['dep'] for r in sl] or \
+                            any(i not in {r['id'] for r in expected} for i in got_ids):
+                        raise Mismatch('a query\'s result changes when another query is executed '
+                                       'while it is being read',
+                                       {'got_n': len(got_ids), 'expected_n': len(sl),
+                                        'other_query': other, **desc})
+                    rec.cls('history:interleaved-consumption')
                 rec.cls(f'query:{qkind}', 'result:' + ('non-empty' if expected else 'empty'))
                 for c in conds:
                     rec.cls(f'cond:{c}')
